@@ -337,25 +337,26 @@ func c16Classes(p *core.Program, r *core.Report) {
 	// resolver must try the method first
 	if cfd := p.FuncDecl("conf", "", "CreateTypesTable"); cfd != nil {
 		cinfo := p.Pkg("conf").TypesInfo
-		var fieldsPos, methodPos token.Pos
-		ast.Inspect(cfd.Body, func(n ast.Node) bool {
+		fieldsPos, methodPos := 0, 0
+		unexportedHelper := func(fn *types.Func, _ *ast.FuncDecl) bool { return !fn.Exported() }
+		eng.InspectInlined(p, cinfo, p.Pkg("conf").Types, cfd.Body, 2, unexportedHelper, func(n ast.Node, _ *eng.InlineCtx, seq int) bool {
 			switch x := n.(type) {
 			case *ast.CallExpr:
-				if fn := eng.CalleeOf(cinfo, x); fn != nil && fn.Name() == "FieldsFromStruct" && !fieldsPos.IsValid() {
-					fieldsPos = x.Pos()
+				if fn := eng.CalleeOf(cinfo, x); fn != nil && fn.Name() == "FieldsFromStruct" && fieldsPos == 0 {
+					fieldsPos = seq
 				}
 			case *ast.CompositeLit:
-				if t := cinfo.TypeOf(x); t != nil && strings.HasSuffix(t.String(), "conf.Tag") && !methodPos.IsValid() {
+				if t := cinfo.TypeOf(x); t != nil && strings.HasSuffix(t.String(), "conf.Tag") && methodPos == 0 {
 					for _, el := range x.Elts {
 						if kv, ok := el.(*ast.KeyValueExpr); ok && eng.ExprStr(kv.Key) == "Method" {
-							methodPos = x.Pos()
+							methodPos = seq
 						}
 					}
 				}
 			}
 			return true
 		})
-		staticMethodWins := fieldsPos.IsValid() && methodPos.IsValid() && methodPos > fieldsPos
+		staticMethodWins := fieldsPos > 0 && methodPos > fieldsPos
 		_, ffd := resolverClasses(p, "FetchFn")
 		var mPos, otherPos token.Pos
 		ast.Inspect(ffd.Body, func(n ast.Node) bool {
@@ -553,7 +554,7 @@ func c16Methods(p *core.Program, r *core.Report) {
 		return true
 	})
 	n := 0
-	ast.Inspect(fd.Body, func(nd ast.Node) bool {
+	eng.InspectInlined(p, info, p.Pkg("conf").Types, fd.Body, 2, func(fn *types.Func, _ *ast.FuncDecl) bool { return !fn.Exported() }, func(nd ast.Node, ctx *eng.InlineCtx, _ int) bool {
 		c, ok := nd.(*ast.CallExpr)
 		if !ok {
 			return true
@@ -567,9 +568,10 @@ func c16Methods(p *core.Program, r *core.Report) {
 		}
 		n++
 		key := fmt.Sprintf("conf.CreateTypesTable/method enumeration#%d is over the type of the value as passed", n)
-		id, isID := eng.Unparen(sel.X).(*ast.Ident)
+		recv, _ := ctx.Resolve(info, sel.X) // through the parameters of an extracted helper
+		id, isID := eng.Unparen(recv).(*ast.Ident)
 		ok2 := false
-		why := "the receiver `" + eng.ExprStr(sel.X) + "` is not a variable"
+		why := "the receiver `" + eng.ExprStr(recv) + "` is not a variable"
 		if isID {
 			ds := defs[objOf(info, id)]
 			why = fmt.Sprintf("`%s` has %d definitions", id.Name, len(ds))
